@@ -8,6 +8,7 @@ mod c01;
 mod c02;
 mod c03;
 mod c04;
+mod c08;
 mod c10;
 mod c14;
 mod c19;
@@ -28,6 +29,7 @@ fn main() {
         ("C02", "drive") => c02::drive(rest),
         ("C03", "drive") => c03::drive(rest),
         ("C04", "drive") => c04::drive(rest),
+        ("C08", "drive") => c08::drive(rest),
         ("C10", "replay") => c10::replay(rest),
         ("C10", "drive") => c10::drive(rest),
         ("C14", "replay") => c14::replay(rest),
